@@ -27,18 +27,19 @@ import numpy as np
 
 from mc.refs import conscenes as cs
 
-# (nv, why, in quick tier) -- both sides of every size threshold; dense is requested only where put_model accepts it (nv <= 60)
+# (nv, why, kinds in the quick tier) -- both sides of every size threshold; dense is requested only where put_model accepts it
+# (nv <= 60).  The quick tier keeps the kernel-dispatch thresholds; around 32|33 only the (cheap) arms kind.
 SIZES = (
-  (32, "last one-tile Cholesky", True),
-  (33, "first blocked Cholesky, nv_pad 48", True),
-  (47, "Newton: last nv_pad 48", False),
-  (48, "Newton: first nv_pad 64; CG: last nv_pad 48", False),
-  (49, "CG: first nv_pad 64", False),
-  (50, "last fused jv", True),
-  (51, "first separate jv / Jaref accumulation (3 threads per row)", True),
-  (60, "largest dense", True),
-  (61, "sparse only", True),
-  (65, "sparse only; nv_pad 80", False),
+  (32, "last one-tile Cholesky", ("arms",)),
+  (33, "first blocked Cholesky, nv_pad 48", ("arms",)),
+  (47, "Newton: last nv_pad 48", ()),
+  (48, "Newton: first nv_pad 64; CG: last nv_pad 48", ()),
+  (49, "CG: first nv_pad 64", ()),
+  (50, "last fused jv", ("row", "arms")),
+  (51, "first separate jv / Jaref accumulation (3 threads per row)", ("row", "arms")),
+  (60, "largest dense", ("row", "arms")),
+  (61, "sparse only", ("row", "arms")),
+  (65, "sparse only; nv_pad 80", ()),
 )
 DENSE_MAX = 60
 
